@@ -93,6 +93,29 @@ fn files(tier: Tier) -> Vec<(String, Vec<u8>)> {
     for &a in &halpha {
         mutate::hostile_each(&[a], 2, true, &mut |m| out.push((m.what.clone(), m.bytes.clone())));
     }
+    // a string whose NUL lies in a trailing partial word (file length not a multiple of 4), with valid, invalid and
+    // incomplete UTF-8 in front of it, as the last operand of OpString / OpName / OpSource
+    for (tn, body) in [("valid", &b"ab"[..]), ("invalid", &[0x61, 0xFF][..]), ("incomplete", &[0x61, 0xC3][..]), ("invalid-long", &[0x61, 0x62, 0x63, 0x64, 0xFF][..]), ("empty", &[][..])] {
+        for (on, head) in [("String", vec![(0u32 << 16) | 7, 1]), ("Name", vec![5, 1]), ("Source", vec![3, 2, 450, 1])] {
+            for tail in 1..=3usize {
+                if body.len() % 4 + 1 > tail {
+                    continue;
+                }
+                let mut w = model::header(0x0001_0300, 0, 50);
+                let total_words = head.len() + body.len() / 4 + 1;
+                let mut first = head.clone();
+                first[0] = ((total_words as u32) << 16) | first[0];
+                w.extend(first);
+                let mut b = model::words_to_bytes(&w);
+                b.extend(body);
+                b.push(0);
+                while b.len() % 4 != tail % 4 {
+                    b.push(0);
+                }
+                out.push((format!("string-tail:{}:{}:{}", on, tn, tail), b));
+            }
+        }
+    }
     // short files: every length 0..=24 with the magic number, its byte-swapped form and foreign first words
     for first in [0x0723_0203u32, 0x0302_2307, 0, 0xFFFF_FFFF, 0x5249_5053, 0x0723_0204] {
         for len in 0..=24usize {
